@@ -64,7 +64,7 @@ def extract_constants(ctx, binary):
 def act_to_feed(a):
     f = {"name": a["name"], "p": a.get("p", 0), "v": a.get("v", 0)}
     if a["name"] == "FeedEndorse":
-        f.update({"i": a["i"], "e": a["e"], "ok": a["ok"]})
+        f.update({"i": a["i"], "e": a["e"], "ok": a["ok"], "cc": a.get("cc", False)})
     elif a["name"] == "FeedCommit":
         f.update({"c": a["c"], "e": a["e"], "cok": a["cok"], "pok": a["pok"],
                   "es": sorted([{"i": x["i"], "ok": x["ok"]} for x in a["es"]], key=lambda x: x["i"])})
@@ -226,6 +226,10 @@ def c34_cfg(n, byz, auth, maxbyz, byzprops, claims, depth, mode):
          "VIEW view", "CHECK_DEADLOCK FALSE", "CONSTRAINT Depth"]
     if mode == "bfs":
         l += ["CONSTRAINT AgreementOut"]
+    elif mode == "frontier":
+        l += ["CONSTRAINT AgreementOut", "CONSTRAINT FrontierOut"]
+    elif mode == "count":
+        pass
     else:
         l += ["CONSTRAINT InitOut", "ACTION_CONSTRAINT Edge"]
     return "\n".join(l) + "\n"
